@@ -183,6 +183,16 @@ def c10():
     try: VI.restore(e); R.fail("c10.no_checkpoint_error", "restore() of a directory without completed checkpoint did not raise", dict(dir="config only"))
     except ValueError: pass
     except Exception as ex: R.fail("c10.no_checkpoint_error", f"wrong exception {type(ex).__name__}: {ex}", dict(dir="config only"))
+    # a checkpoint directory that an earlier run with ANOTHER configuration already used: restore() rebuilds the solver that wrote last
+    try:
+        dd = os.path.join(base, "c10_reused"); R.case(("reused_directory",), dict(history="VI(gamma 0.5, Forest p=0.1) writes into D and finishes; VI(gamma 0.95, Forest p=0.3) writes into the same D; restore(D)"))
+        a1 = VI(Forest(S=6, p=0.1), gamma=0.5, epsilon=0.1, verbose=0, checkpoint_dir=dd, checkpoint_frequency=1, enable_async_checkpointing=False); a1.solve(2); wait(a1); a1.checkpoint_manager.close()
+        a2 = VI(Forest(S=6, p=0.3), gamma=0.95, epsilon=1e-6, verbose=0, checkpoint_dir=dd, checkpoint_frequency=1, enable_async_checkpointing=False); a2.solve(4); wait(a2)
+        r = VI.restore(dd, new_checkpoint_dir=dd + "_r")
+        got = dict(gamma=float(r.gamma), epsilon=float(r.epsilon), p=float(r.problem.p), iteration=int(r.iteration)); want = dict(gamma=0.95, epsilon=1e-6, p=0.3, iteration=4)
+        if got != want or not np.array_equal(np.asarray(r.values), np.asarray(a2.values)):
+            R.fail("c10.restored_config_is_the_saving_solvers", "restore() of a directory that an earlier run had used rebuilds a solver / problem with another configuration than the one that wrote the restored state", dict(history="two runs, one directory"), got, want)
+    except Exception as ex: R.fail("c10.restored_config_is_the_saving_solvers", f"re-used directory: {type(ex).__name__}", dict(history="two runs, one directory"), str(ex)[:200])
     # load_checkpoint for a hand-built solver on a problem without configuration
     from tabular import Tab, rand_mdp
     ns, rr, pp = rand_mdp(rng, 6, 2, 2); d = os.path.join(base, "c10_tab")
